@@ -91,7 +91,7 @@ SAFE_BUILTINS: dict[str, Callable] = {
     "repeat": lambda x, n: [x] * n,  # itertools.repeat with a count
     "chain": lambda *its: [x for it in its for x in it],  # itertools.chain
 }
-STR_METHODS = {"lower", "upper", "startswith", "endswith", "casefold", "isalpha", "swapcase", "isascii", "isdigit", "isalnum", "isupper", "islower", "strip", "lstrip", "rstrip", "split", "replace", "find", "rfind", "count", "index"}
+STR_METHODS = {"lower", "upper", "startswith", "endswith", "casefold", "isalpha", "swapcase", "isascii", "isdigit", "isalnum", "isupper", "islower", "strip", "lstrip", "rstrip", "split", "replace", "find", "rfind", "count", "index", "splitlines", "rsplit", "join", "encode", "isspace", "title", "zfill", "ljust", "rjust", "center", "partition", "rpartition", "expandtabs", "format"}
 LIST_METHODS = {"append", "extend", "pop", "sort", "clear", "insert", "index", "copy"}
 SET_METHODS = {"add", "update", "discard", "copy"}
 
@@ -446,6 +446,8 @@ class Ev:
                     if m is not None:
                         return m(recv, *args, **kwargs)
                 raise self.bad(n, f"no abstract method {f.attr} for {recv.kinds}")
+            if kwargs and isinstance(recv, str) and f.attr in ("splitlines", "split", "rsplit", "find", "rfind", "count", "startswith", "endswith", "strip", "lstrip", "rstrip", "replace"):
+                return getattr(recv, f.attr)(*args, **kwargs)
             if kwargs:
                 raise self.bad(n, "keyword arguments")
             if isinstance(recv, dict) and f.attr in ("get", "items", "keys", "values", "setdefault", "update", "pop"):
